@@ -9,14 +9,14 @@
 (*   c04: the specification's own decoder accepts the bytes (valid,        *)
 (*        self-contained Ion) and recovers exactly the forest              *)
 (***************************************************************************)
-EXTENDS IonText, Json, TLC
+EXTENDS IonText, Layout, Json, TLC
 
 CONSTANTS ObsFile, ForestFile, VerdictFile
 
 Obs     == ndJsonDeserialize(ObsFile)
 Forests == ndJsonDeserialize(ForestFile)
 
-IsBinMode(m) == m \in {"binary", "binlst"}
+IsBinMode(m) == m \in {"binary", "binlst", "binsid", "bintwice"}
 
 C01(o, f) ==
   IF o.wpanic # "" THEN "writer panic"
@@ -35,9 +35,21 @@ C04(o, f) ==
           ELSE IF ForestEquiv(d.forest, f) THEN "ok"
           ELSE "decodes to other values"
 
-Verdict(o) == LET f == Forests[o.idx].forest
+\* beyond the listed properties: layout of the pretty writer relative to the compact writer (spec/Layout.tla)
+LayoutOf(o) ==
+  IF o.mode # "pretty" \/ o.werr # "" \/ o.wpanic # "" THEN "n/a"
+  ELSE LET ts == SelectSeq(Obs, LAMBDA x : x.idx = o.idx /\ x.mode = "text" /\ x.werr = "" /\ x.wpanic = "")
+       IN IF ts = <<>> THEN "n/a"
+          ELSE IF ~SameTokens(o.out, ts[1].out) THEN "pretty and compact output differ in more than white space"
+          ELSE IF ~IndentOK(o.out) THEN "indentation is not one tab per open container"
+          ELSE "ok"
+
+\* mode bintwice: the forest written as two datagrams of one writer
+Verdict(o) == LET f0 == Forests[o.idx].forest
+                  f == IF o.mode = "bintwice" THEN f0 \o f0 ELSE f0
               IN [idx |-> o.idx, mode |-> o.mode, c01 |-> C01(o, f), c04 |-> C04(o, f),
-                  diff |-> IF o.werr = "" /\ o.rerr = "" THEN FirstDiff(f, o.back) ELSE 0]
+                  diff |-> IF o.werr = "" /\ o.rerr = "" THEN FirstDiff(f, o.back) ELSE 0,
+                  layout |-> LayoutOf(o)]
 
 ASSUME ndJsonSerialize(VerdictFile, [i \in 1..Len(Obs) |-> Verdict(Obs[i])])
 =============================================================================
